@@ -204,3 +204,85 @@ Definition cobs_json (o : option cobs) : json :=
 Definition c17_seq_case := (list cclient * list ccall)%type.
 Definition predict_C17_seq (c : c17_seq_case) : json :=
   JObj [(s "tags", JArr []); (s "steps", JArr (map cobs_json (run_calls (fst c) (snd c))))].
+
+(* ================================================================================================
+   Routes over a SHARED request message (seeded change C17e).  Added below; nothing above changes.
+     server : internal/httpgen/generator.go:1536-1566  one `<method>PathParams` / `<method>QueryParams`
+              package variable PER METHOD (path variables from the method's own template, query
+              parameters from the input message's annotated fields)
+              internal/httpgen/generator.go:209-232    each route's BindingMiddleware receives ITS OWN two
+              slices at registration and only reads them
+              internal/httpgen/generator.go:338-372    body first (POST/PUT/PATCH), then path values, then
+              query values present in the URL; a path value "" or an absent required query parameter is
+              answered 400 naming the field; bindPathParams / bindQueryParams keep nothing between
+              requests (fields.ByName per request: :470-513, :515-585)
+   Two RPCs that take the same request message are two routes with two configurations; what one of them
+   binds is decided by its own template, whatever the other declares and whichever was called first.
+   ================================================================================================ *)
+Record sroute := { sr_name : str;
+                   sr_body : bool;                       (* POST / PUT / PATCH: the body is decoded *)
+                   sr_path : list str;                   (* path variables = field names, in template order *)
+                   sr_query : list (str * str * bool) }. (* (query name, field name, required) *)
+(* a request: the route it is addressed to, what r.PathValue answers (the mux fills it from the MATCHED
+   route's template), the query multimap's first values, the decoded body fields *)
+Record sreq := { sq_route : str; sq_path : list (str * str); sq_query : list (str * str); sq_body : list (str * str) }.
+
+Fixpoint flookup (k : str) (m : list (str * str)) : option str :=
+  match m with
+  | [] => None
+  | (k', v) :: r => if str_eqb k' k then Some v else flookup k r
+  end.
+Fixpoint fset (k v : str) (m : list (str * str)) : list (str * str) :=
+  match m with
+  | [] => [(k, v)]
+  | (k', v') :: r => if str_eqb k' k then (k', v) :: r else (k', v') :: fset k v r
+  end.
+
+Inductive sres := SReject (field : str) | SDispatch (m : list (str * str)).
+
+Fixpoint bind_path (params : list str) (pv m : list (str * str)) : sres :=
+  match params with
+  | [] => SDispatch m
+  | p :: r =>
+      match flookup p pv with
+      | Some (c :: v) => bind_path r pv (fset p (c :: v) m)
+      | _ => SReject p                                   (* PathValue answered "" *)
+      end
+  end.
+Fixpoint bind_query (params : list (str * str * bool)) (qv m : list (str * str)) : sres :=
+  match params with
+  | [] => SDispatch m
+  | (q, f, required) :: r =>
+      match flookup q qv with
+      | Some v => bind_query r qv (fset f v m)
+      | None => if required then SReject f else bind_query r qv m
+      end
+  end.
+Definition serve_shared (r : sroute) (rq : sreq) : sres :=
+  let m0 := if sr_body r then fold_left (fun m kv => fset (fst kv) (snd kv) m) (sq_body rq) [] else [] in
+  match bind_path (sr_path r) (sq_path rq) m0 with
+  | SReject f => SReject f
+  | SDispatch m1 => bind_query (sr_query r) (sq_query rq) m1
+  end.
+
+(* registration hands every route its own configuration (by value); a request is served by the route it
+   is addressed to; the server keeps nothing between requests *)
+Definition find_sroute (table : list sroute) (m : str) : option sroute :=
+  find (fun r => str_eqb (sr_name r) m) table.
+Definition serve_shared_in (table : list sroute) (rq : sreq) : option sres :=
+  option_map (fun r => serve_shared r rq) (find_sroute table (sq_route rq)).
+Definition run_shared (table : list sroute) (steps : list sreq) : list (option sres) :=
+  map (serve_shared_in table) steps.
+
+Definition sres_json (o : option sres) : json :=
+  match o with
+  | None => JObj [(s "status", JNum 404); (s "handler", JBool false); (s "violations", JArr []); (s "fields", JObj [])]
+  | Some (SReject f) => JObj [(s "status", JNum 400); (s "handler", JBool false); (s "violations", jstrs [f]); (s "fields", JObj [])]
+  | Some (SDispatch m) =>
+      JObj [(s "status", JNum 200); (s "handler", JBool true); (s "violations", JArr []);
+            (s "fields", JObj (map (fun kv => (fst kv, JStr (snd kv))) (filter (fun kv => nonempty (snd kv)) m)))]
+  end.
+
+Definition c17_shared_case := (list sroute * list sreq)%type.
+Definition predict_C17_shared (c : c17_shared_case) : json :=
+  JObj [(s "tags", JArr []); (s "steps", JArr (map sres_json (run_shared (fst c) (snd c))))].
